@@ -137,6 +137,14 @@ def run(prop, tier, seed):
                              "points": [list(x) for x in p], "diff": diff})
         if len(viol) >= 5:
             break
+    # ---- 4. the REAL Debump.set_dihedral_angle, several successive requests on the same torsion (the rotation is
+    #         requested - stored, so the stored value must follow every move)
+    try:
+        v4, n4 = _successive_torsions(rng)
+    except Exception as ex:  # the sub-check must not hide the others
+        v4, n4 = [{"what": f"successive torsion sub-check could not run: {type(ex).__name__}: {ex}"}], 0
+    evals += n4
+    viol.extend(v4[:3])
     out = {"name": "c15_numeric", "evaluations": evals, "violations": [], "undecided": [], "errors": [],
            "bound": f"{evals} seeded random cases (seed {seed})", "worst": worst,
            "summary": f"{evals} cases, worst placement {worst['placement']:.2e} A, torsion {worst['torsion_deg']:.4f} deg",
@@ -152,6 +160,55 @@ def run(prop, tier, seed):
         out["violations"].append({"obligation": "C15/bounded:numeric", "replay": path, "reproduced": True,
                                   "text": viol[0]["what"]})
     return out
+
+
+def _torsion(p0, p1, p2, p3):
+    """Independent torsion measurement (atan2 form), degrees."""
+    b0, b1, b2 = p0 - p1, p2 - p1, p3 - p2
+    b1n = b1 / np.linalg.norm(b1)
+    v = b0 - np.dot(b0, b1n) * b1n
+    w = b2 - np.dot(b2, b1n) * b1n
+    x = np.dot(v, w)
+    y = np.dot(np.cross(b1n, v), w)
+    return float(np.degrees(np.arctan2(y, x)))
+
+
+def _successive_torsions(rng):
+    from pdb2pqr import cells as cells_mod
+    from pdb2pqr import debump as debump_mod
+    from tables import pipeline as pl
+
+    pdb = os.path.join(pl.repo_root(), "tests", "data", "1AFS.pdb")
+    res = pl.residues_of(pdb)
+    viol, n = [], 0
+    for rn in ("LYS", "MET", "GLN"):
+        r = pl.run(pl.fragment(res, *pl.find_window(res, rn, 1)), ["--ff=PARSE", "--noopt", "--nodebump"])
+        if not r["ok"]:
+            continue
+        bm = r["biomolecule"]
+        deb = debump_mod.Debump(bm)
+        deb.cells = cells_mod.Cells(5)
+        deb.cells.assign_cells(bm)
+        bm.set_reference_distance()
+        bm.calculate_dihedral_angles()
+        residue = bm.residues[1]
+        for k, dih in enumerate(residue.reference.dihedrals):
+            names = dih.split()
+            if not all(residue.has_atom(x) for x in names) or residue.dihedrals[k] is None:
+                continue
+            if any(x in ("N", "C", "O") for x in names[2:]) or names[2] in ("CA",):
+                continue
+            for req in (60.0, -75.0, 180.0, 32.5, rng.uniform(-180, 180)):
+                deb.set_dihedral_angle(residue, k, req)
+                pts = [np.array(residue.get_atom(x).coords, dtype=float) for x in names]
+                got = _torsion(*pts)
+                n += 1
+                d = abs(got - req) % 360.0
+                d = min(d, 360.0 - d)
+                if d > 0.05:
+                    viol.append({"what": "successive set_dihedral_angle requests: measured torsion differs from the request",
+                                 "residue": str(residue), "dihedral": dih, "requested": req, "measured": got})
+    return viol, n
 
 
 if __name__ == "__main__":
